@@ -8,6 +8,7 @@ Model of
 * `synkit/Graph/ITS/its_decompose.py`    : `its_decompose`, `get_rc` (the live variant:
   `_add_changed_bonds`, `_add_hh_bonds`, `_add_charge_change_nodes`, `_reconnect_rc_edges`)
 * `synkit/Graph/Context/radius_expand.py`: `find_nearest_neighbors`, `extract_subgraph`, `extract_k`
+  (radii ≥ 0 and the free-radius mode `-1` with `longest_radius_extension`), `find_unequal_order_edges`
 
 Numbers are in half-units (`Val.num h` is `h/2`).  A NetworkX `Graph` never holds two edges on
 the same unordered pair and the code never builds self-loops from a frozenset pair; the model is
@@ -290,12 +291,95 @@ def induced (I : LGraph) (X : List Nat) : LGraph :=
   { nodes := I.nodes.filter fun p => X.contains p.1
     edges := I.edges.filter fun e => X.contains e.1 && X.contains e.2.1 }
 
-/-- `RadiusExpand.extract_k(its, n_knn)` for `n_knn ≥ 0` (`-1`, the longest-extension mode, is not modelled). -/
+/-- `RadiusExpand.extract_k(its, n_knn)` for `n_knn ≥ 0` (`n_knn = -1`: `extractFreeAdj` below). -/
 def extractK (I : LGraph) (k : Nat) : LGraph :=
   let rc := getRc {} I
   match k with
   | 0 => rc
   | k + 1 => induced I (expand I rc.ids (k + 1))
+
+/-! ## `RadiusExpand.extract_k(its, -1)` (free radius) and `find_unequal_order_edges` -/
+
+/-- `edge_data.get("standard_order", 1) == 0` (`False == 0` in Python; a missing key reads as `1`). -/
+def stdIsZero (a : Attrs) : Bool :=
+  match a.get? "standard_order" with
+  | some (.num h) => h == 0
+  | some (.bool b) => !b
+  | _ => false
+
+/-- The neighbours the depth-first search of `longest_radius_extension` may step to from `v`:
+`G.neighbors(v)` (in the adjacency order `adj v`) whose edge has `standard_order == 0`. -/
+def freeSteps (I : LGraph) (adj : Nat → List Nat) (v : Nat) : List Nat :=
+  (adj v).filter fun w => match I.edge? v w with
+    | some a => stdIsZero a
+    | none => false
+
+/-- The inner `dfs(node, visited, path)` of `longest_radius_extension`: `visited.add(node)`, then for
+every admissible neighbour not yet visited the search is continued on a *copy* of `visited` (so the
+enumeration is over all simple paths), and a strictly longer result replaces the current one (the
+first longest path in adjacency order wins).  `fuel` bounds the recursion depth; `I.nodes.length`
+is enough (`dfsLongest_fuel_stable`). -/
+def dfsLongest (nb : Nat → List Nat) : Nat → Nat → List Nat → List Nat → List Nat
+  | 0, _, _, path => path
+  | fuel + 1, node, visited, path =>
+    (nb node).foldl (fun longest w =>
+      if w ∈ node :: visited then longest
+      else
+        let cur := dfsLongest nb fuel w (node :: visited) (path ++ [w])
+        if cur.length > longest.length then cur else longest) path
+
+/-- One round of the outer loop of `longest_radius_extension`; the state is
+`(longest_extension, visited_overall)`. -/
+def extStep (nb : Nat → List Nat) (fuel : Nat) (st : List Nat × List Nat) (c : Nat) : List Nat × List Nat :=
+  if c ∈ st.2 then st
+  else
+    let p := dfsLongest nb fuel c st.2 [c]
+    (if p.length > st.1.length then p else st.1, unionL st.2 p)
+
+/-- `longest_radius_extension(G, rc_nodes)` (first component) and the final `visited_overall`. -/
+def longestExt (nb : Nat → List Nat) (fuel : Nat) (rcNodes : List Nat) : List Nat × List Nat :=
+  rcNodes.foldl (extStep nb fuel) ([], [])
+
+/-- The radius `extract_k(its, -1)` uses: `len(longest_radius_extension(its, list(rc.nodes())))`, the
+number of ATOMS of the longest unchanged-bond path the search finds.  `adj` is the NetworkX adjacency
+order of `its` (it decides ties, and through `visited_overall` it can change the number). -/
+def freeRadiusAdj (adj : Nat → List Nat) (I : LGraph) : Nat :=
+  (longestExt (freeSteps I adj) I.nodes.length (getRc {} I).ids).1.length
+
+/-- `RadiusExpand.extract_k(its, -1)`: the radius is replaced by `freeRadiusAdj`, then the code falls
+through to `find_nearest_neighbors` / `extract_subgraph` (also when that radius is 0). -/
+def extractFreeAdj (adj : Nat → List Nat) (I : LGraph) : LGraph :=
+  induced I (expand I (getRc {} I).ids (freeRadiusAdj adj I))
+
+/-- The free-radius mode on a graph whose adjacency order is the one its edge list induces
+(a graph built by `add_edge` in `G.edges()` order, e.g. any `G.copy()`). -/
+def freeRadius (I : LGraph) : Nat := freeRadiusAdj I.neighbors I
+def extractFree (I : LGraph) : LGraph := extractFreeAdj I.neighbors I
+
+/-- Python `x == y` on two attribute values (`True == 1`, `False == 0`; otherwise structural). -/
+def pyEq : Val → Val → Bool
+  | .num a, .bool b => a == (if b then 2 else 0)
+  | .bool b, .num a => a == (if b then 2 else 0)
+  | x, y => decide (x = y)
+
+/-- The test of `find_unequal_order_edges` on one edge:
+`isinstance(order, tuple) and order[0] != order[1] and data.get("standard_order", 1) != 0`
+with `order = data.get("order", (1, 1))`. -/
+def unequalEdge (a : Attrs) : Bool :=
+  match (a.get? "order").getD (.tup [.num 2, .num 2]) with
+  | .tup xs => !pyEq (xs.getD 0 .none) (xs.getD 1 .none) && !stdIsZero a
+  | _ => false
+
+/-- Inputs on which `find_unequal_order_edges` raises (`IndexError`): an `order` tuple with fewer
+than two entries. -/
+def unequalDefined (I : LGraph) : Bool :=
+  I.edges.all fun e => match e.2.2.get? "order" with
+    | some (.tup xs) => decide (xs.length ≥ 2)
+    | _ => true
+
+/-- `RadiusExpand.find_unequal_order_edges(G)` (a set, here in insertion order). -/
+def unequalOrderEdges (I : LGraph) : List Nat :=
+  I.edges.foldl (fun acc e => if unequalEdge e.2.2 then unionL acc [e.1, e.2.1] else acc) []
 
 end SynKit.ITS
 
